@@ -795,13 +795,13 @@ def observe_models_1d(rng, Ls, thorough):
                 default2 = [(0.5, "+", "-"), (0.5, "-", "+"), (-0.75, "Z", "Z"), (0.75, "X", "Y"), (-0.75, "Y", "X"),
                             (1.25, "+", "-"), (0.5, rawA, rawB)]
                 bond12 = [(1.5, "Z", "X"), (0.5, "Y", "Y")]
-                wrapv = [(1.0, "Z", "X"), (0.5, "-", "Z"), (0.25, "X", "Z"), (0.75, "Y", "+"), (0.5, rawB, rawA),
-                         (-0.5, "Z", "Z"), (1.5, "+", "-")]          # as many terms as the default bond
 
                 def sop(s):
                     return np.asarray(qu.spin_operator(s, S=S)) if isinstance(s, str) else np.asarray(s)
 
-                for variant in (("SpinHam1D", "SpinHam1D/wrapvar") if (cyclic and L >= 3) else ("SpinHam1D",)):
+                # (site-specific terms on the wrap bond are unsupported input: the only accepted key, sb[L-1, L],
+                #  names a site that does not exist; not driven - see notes/C19_report.md "not counted")
+                for variant in ("SpinHam1D",):
                     sb = qtn.SpinHam1D(S=S, cyclic=cyclic)
                     for t in default2:
                         sb += t
@@ -811,10 +811,6 @@ def observe_models_1d(rng, Ls, thorough):
                             sb[1, 2] += t
                     sb[0] += 2.0, "Z"
                     sb[L - 1] += -1.0, "Y"
-                    if variant.endswith("wrapvar"):
-                        # site-specific terms on the wrap bond: the only key the item syntax accepts for it
-                        for t in wrapv:
-                            sb[L - 1, L] += t
                     ref = np.zeros((d ** L, d ** L), dtype=complex)
                     for i in range(L):
                         one = [(-1.0, "Y")] if i == L - 1 else ([(2.0, "Z")] if i == 0 else [(-0.25, "X")])
@@ -825,8 +821,6 @@ def observe_models_1d(rng, Ls, thorough):
                         jn = (i + 1) % L
                         if (i, i + 1) == (1, 2) and L >= 3:
                             two = bond12
-                        elif i == L - 1 and variant.endswith("wrapvar"):
-                            two = wrapv
                         else:
                             two = default2
                         for f, s1, s2 in two:
